@@ -69,7 +69,7 @@ def _handle(req: dict) -> dict:
         fmt, opts = req["fmt"], req.get("opts")
         # a reader process starts with an empty source table
         Source.clear_registry()
-        if opts == "idx":
+        if "idx" in (opts or ""):
             # the documented protocol: sources are shipped separately and loaded into the empty table
             Source.load_serialized_sources(req["sources"])
         data = RW.payload_from_json(req["payload"], fmt)
